@@ -11,6 +11,7 @@ request stream is compared with the Lean controller model, the simulator is cros
 replaying every request/reply pair through the Lean router specification (a disagreement is an
 infrastructure error), and the Lean predicates `LoadSpec` / `ReadbackSpec` decide the property
 on the router contents of the simulated machine and on what the implementation read back."""
+import collections
 import random
 import struct
 
@@ -66,7 +67,12 @@ CLAIM = dict(
           "call to the next (packed table, sv addresses, allocation base) is validated by the session stream, not proved: a "
           "carried value that changes the router content is a violation, one that only changes the commands sent (e.g. a "
           "cached staging buffer address that still loads the right entries) is a broken correspondence. scp_data_length "
-          "is cached by the controller by design and constant within a session."),
+          "is cached by the controller by design and constant within a session. Read-back entries carry no source "
+          "information: the Lean model's decoded entry has the documented default sources {None} and ReadbackSpec demands "
+          "it, so state shared between entries handed to the caller (a shared default set) is a violation once the caller "
+          "edits one of them. Trees are judged on their documented structure (a child that is an instance of RoutingTree "
+          "or of any subclass continues the route, anything else is a vertex). build_routing_tables (deprecated, "
+          "place_and_route/utils.py) is not part of this property's anchors and is not exercised."),
     technique="Lean 4 theorems over a hand-written model + differential correspondence + Lean spec as oracle")
 
 THEOREMS = ["routes_enum_documented", "traverse_exact", "tables_exact", "multisource_iff", "tables_total",
@@ -83,7 +89,13 @@ THEOREMS += ['gen_inDir']   # translator tie: generated function bodies = model 
 RULE = ("pure cases = forests of 1-6 nets on a 4x4 torus: random branching trees/chains with vertex leaves (core route, link "
         "route or None), key/mask drawn from a pool of 1-3 so nets share them, later nets re-using (copying) subtrees of "
         "earlier nets so that they merge without conflict or differ in one child so that they conflict, plus a malformed "
-        "stream (subtree under route None / under a core route); machine cases = tables of 0..1024 entries (sizes 0,1,2,3,"
+        "stream (subtree under route None / under a core route); 40% of the forests are dressed differently without "
+        "changing their meaning: nodes that are instances of application subclasses of RoutingTree (adding a slot, adding "
+        "a __dict__ attribute, a subclass of a subclass) at root, inner and leaf-adjacent positions, children held in a "
+        "list / tuple / set, child pairs as tuples or namedtuples, vertices of arbitrary hashable types (object, str, int, "
+        "a (Routes, object) tuple that looks like a child pair, an (x, y) tuple, a namedtuple, a frozenset, an unrelated "
+        "class that is also called RoutingTree); in 15% the caller first edits the tables it was handed (sources sets, "
+        "lists, dict) and converts the same trees again, the second result is judged; machine cases = tables of 0..1024 entries (sizes 0,1,2,3,"
         "16,17,64,1023,1024 and random) over all 24 route bits with full-width keys/masks, 1-3 chips, app ids 0..255, scp "
         "buffer sizes 16..512, random router free-list states (fragmented, full, empty) and allocation policies (first "
         "fit, last fit, random fit, refuse), 0-2 bystander chips that have a router state but no table, followed by a full "
@@ -95,7 +107,13 @@ RULE = ("pure cases = forests of 1-6 nets on a 4x4 torus: random branching trees
         "or unchanged), interleaved with fresh lists, changing app ids, load_routing_tables with several chips sharing "
         "one list object, the same or another chip as target, and read-backs of loaded and other chips in between; every "
         "load is judged by the Lean oracles against the list as it is at the time of that call and the router as it "
-        "was when the call started; the replay payload is the whole session; non-trivial = (pure) at "
+        "was when the call started; the replay payload is the whole session; after a read-back (single-load stream and "
+        "sessions, first or second controller) the caller edits in place what it was handed - the sources set of one "
+        "returned entry, the returned list - and likewise the sources of entries it built itself with default arguments; "
+        "all other entries of that read-back and every later read-back / unpack round trip must still be the router's "
+        "(Lean ReadbackSpec now demands the unknown-source default {None}, and read-back entries are compared with entries "
+        "built with an explicit {None}); between cases the harness restores a shared default set if the implementation "
+        "has one, so that every reported case is self-contained; non-trivial = (pure) at "
         "least two nodes share chip+key+mask, (machine) a table of >= 2 entries was loaded or an allocation failed with a "
         "non-empty router or a block was leaked by a retransmitted allocation, (session) a list object that had been "
         "loaded before was edited and loaded again; distinct = distinct canonical JSON of the case")
@@ -203,7 +221,33 @@ def gen_forest(rng):
         victim = rng.choice(tree_nodes(rng.choice(nets)["tree"]))
         sub = {"c": [rng.randrange(FW), rng.randrange(FH)], "k": [[7, None]]}
         victim["k"].append([None if rng.random() < 0.5 else 6 + rng.randrange(18), sub])
-    return {"kind": "forest", "nets": nets, "links_enum": rng.random() < 0.3}
+    case = {"kind": "forest", "nets": nets, "links_enum": rng.random() < 0.3}
+    if rng.random() < 0.4:
+        # the same trees in other legal clothes (the Lean side reads only "c" and "k")
+        # (children in a set are visited in an arbitrary order; in a malformed forest the order decides which of
+        # several errors is raised, and those are only compared with the model: no sets there)
+        ordered = not all(wellformed(n["tree"]) for n in nets)
+        for n in nets:
+            for t in tree_nodes(n["tree"]):
+                decorate(rng, t, ordered)
+    if rng.random() < 0.15:
+        # the caller edits the tables it was handed (dict, lists, the entries' sources sets) and converts again
+        case["reconvert"] = rng.randrange(1000)
+    return case
+
+
+VERTEX_KINDS = ["obj", "obj", "str", "int", "pair", "xy", "ntuple", "frozenset", "faketree"]
+
+
+def decorate(rng, t, ordered=False):
+    """node class: 0 RoutingTree, 1 subclass adding a slot, 2 subclass with a __dict__ and an attribute, 3 subclass of
+    a subclass; container of children: list (documented), tuple, set (documented up to Rig 1.5.1); child pairs: tuple
+    or a namedtuple (a subclass of tuple); vertices: arbitrary hashable objects, also ones that look like child pairs,
+    chip coordinates or a tree"""
+    t["s"] = rng.choice([0, 0, 1, 1, 2, 3])
+    t["f"] = rng.choice(["list", "list", "tuple", "tuple" if ordered else "set"])
+    t["p"] = rng.choice(["tuple", "tuple", "named"])
+    t["v"] = [rng.choice(VERTEX_KINDS) for _ in t["k"]]
 
 
 def wellformed(t):
@@ -214,20 +258,113 @@ class Vertex(object):
     pass
 
 
+class RoutingTree(object):
+    """NOT rig's RoutingTree: an unrelated application object that happens to look like one - a vertex"""
+    def __init__(self, chip):
+        self.chip = chip
+        self.children = []
+
+
+ChildPair = collections.namedtuple("ChildPair", "route obj")
+VertexTuple = collections.namedtuple("VertexTuple", "route obj")
+_tree_classes = {}
+
+
+def tree_classes():
+    """rig's RoutingTree and application subclasses of it (created once per rig module object)"""
+    from rig.place_and_route import routing_tree as rt
+    if _tree_classes.get("base") is not rt.RoutingTree:
+        class SlotTree(rt.RoutingTree):
+            __slots__ = ["label"]
+
+            def __init__(self, chip, children=None, label=None):
+                super(SlotTree, self).__init__(chip, children)
+                self.label = label
+
+        class DictTree(rt.RoutingTree):
+            def __init__(self, chip, children=None):
+                super(DictTree, self).__init__(chip, children)
+                self.note = "added by the application"
+
+        class SubSlotTree(SlotTree):
+            __slots__ = []
+        _tree_classes.update(base=rt.RoutingTree, classes=[rt.RoutingTree, SlotTree, DictTree, SubSlotTree])
+    return _tree_classes["classes"]
+
+
+def make_vertex(kind, chip, i):
+    from rig.routing_table import Routes
+    if kind == "str":
+        return "vertex %d at %r" % (i, chip)
+    if kind == "int":
+        return 1000 * i + chip[0]
+    if kind == "pair":
+        return (Routes(i % 6), Vertex())            # looks like a (route, object) child pair
+    if kind == "xy":
+        return (chip[0], chip[1])
+    if kind == "ntuple":
+        return VertexTuple(Routes((i + 1) % 6), Vertex())
+    if kind == "frozenset":
+        return frozenset([i, "v"])
+    if kind == "faketree":
+        return RoutingTree(tuple(chip))
+    return Vertex()
+
+
 def build_tree(t, use_links):
-    from rig.place_and_route.routing_tree import RoutingTree
     from rig.routing_table import Routes
     from rig.links import Links
     kids = []
-    for r, s in t["k"]:
+    kinds = t.get("v") or []
+    for i, (r, s) in enumerate(t["k"]):
         if r is None:
             rr = None
         elif use_links and r < 6:
             rr = Links(r)
         else:
             rr = Routes(r)
-        kids.append((rr, Vertex() if s is None else build_tree(s, use_links)))
-    return RoutingTree(tuple(t["c"]), kids)
+        child = make_vertex(kinds[i] if i < len(kinds) else "obj", t["c"], i) if s is None else build_tree(s, use_links)
+        kids.append(ChildPair(rr, child) if t.get("p") == "named" else (rr, child))
+    form = t.get("f", "list")
+    kids = tuple(kids) if form == "tuple" else set(kids) if form == "set" else kids
+    return tree_classes()[t.get("s", 0)](tuple(t["c"]), kids)
+
+
+def RoutingTableEntryExplicit(e):
+    """the entry [route, key, mask] built with every argument explicit (sources {None})"""
+    from rig.routing_table import RoutingTableEntry, Routes
+    return RoutingTableEntry({Routes(r) for r in e[0]}, e[1], e[2], {None})
+
+
+def restore_default_sources():
+    """hygiene between cases: if the implementation hands out one shared `sources` set for entries built with the
+    default argument, an edit made by one case would leak into all later ones and their replays would not be
+    self-contained; on a correct implementation this touches a fresh, unshared set"""
+    from rig.routing_table import RoutingTableEntry
+    src = RoutingTableEntry(set(), 0, 0).sources
+    if src != {None}:
+        src.clear()
+        src.add(None)
+
+
+def edit_tables(tables, k):
+    """what a caller may do with the dict routing_tree_to_tables handed it: edit the entries' sources sets, the
+    lists and the dict, all in place (k selects the edits)"""
+    from rig.routing_table import Routes
+    for j, (chip, es) in enumerate(list(tables.items())):
+        for i, e in enumerate(es):
+            if (k + i) % 2:
+                e.sources.discard(None)
+            e.sources.add(Routes((k + i + j) % 24))
+        if (k + j) % 3 == 0:
+            es.reverse()
+            es.pop()
+        if (k + j) % 4 == 1:
+            es.append(es[0] if es else None)
+        if (k + j) % 5 == 2:
+            del tables[chip]
+    if k % 7 == 3:
+        tables.clear()
 
 
 def canon_entry(e):
@@ -242,6 +379,11 @@ def impl_tables(case):
         net = ("net", i)
         routes[net] = build_tree(n["tree"], case.get("links_enum", False))
         net_keys[net] = (n["key"], n["mask"])
+    if case.get("reconvert") is not None:
+        try:
+            edit_tables(routing_tree_to_tables(routes, net_keys), case["reconvert"])
+        except (MultisourceRouteError, AssertionError, ValueError):
+            pass
     try:
         tables = routing_tree_to_tables(routes, net_keys)
     except MultisourceRouteError as e:
@@ -296,6 +438,17 @@ def eval_forests(ctx, cases):
         ctx.tag("forest_" + ("ok" if "ok" in impl else impl["err"][0]) + ("" if wf else "_malformed"))
         if "ok" in impl and shares(c):
             ctx.tag("forest_ok_with_merge")
+        nodes = [t for n in c["nets"] for t in tree_nodes(n["tree"])]
+        if any("s" in t for t in nodes):
+            ctx.tag("forest_decorated")
+            if any(t.get("s") for n in c["nets"] for r, sub in [(None, n["tree"])] for t in tree_nodes(sub)[1:]):
+                ctx.tag("forest_subclass_below_root")
+            if any(t.get("s") for n in c["nets"] for t in tree_nodes(n["tree"])[:1]):
+                ctx.tag("forest_subclass_at_root")
+            if any(t.get("f") == "set" for t in nodes):
+                ctx.tag("forest_children_in_set")
+        if c.get("reconvert") is not None:
+            ctx.tag("forest_converted_again_after_caller_edits")
         if norm_tables(impl) != norm_tables(model):
             ctx.mismatch("c10.tables", "impl=%r model=%r" % (str(impl)[:300], str(model)[:300]), c)
         elif impl != model:
@@ -575,7 +728,34 @@ def canon_dec(d):
     if d is None:
         return None
     rte, app, core = d
-    return [sorted(int(r) for r in rte.route), int(rte.key), int(rte.mask), int(app), int(core)]
+    return [sorted(int(r) for r in rte.route), int(rte.key), int(rte.mask), int(app), int(core),
+            sorted(-1 if x is None else int(x) for x in rte.sources)]
+
+
+def caller_edits_readback(t, before, ed):
+    """the caller edits, in place, ITS copy of one entry of the read-back `t` (and then the list itself); returns
+    (edited index, first other index that changed, was, now, how many changed) if any other entry changed with it"""
+    from rig.routing_table import Routes
+    used = [i for i, d in enumerate(t) if d is not None]
+    alias = None
+    if used:
+        i = used[ed["row"] % len(used)]
+        if ed["discard_none"]:
+            t[i][0].sources.discard(None)
+        t[i][0].sources.add(Routes(ed["add"]))
+        after = [canon_dec(d) for d in t]
+        bad = [j for j in used if j != i and after[j] != before[j]]
+        if bad:
+            alias = (i, bad[0], before[bad[0]], after[bad[0]], len(bad))
+    if ed.get("list") == "pop":
+        t.pop()
+    elif ed.get("list") == "reverse":
+        t.reverse()
+    elif ed.get("list") == "clear":
+        del t[:]
+    elif ed.get("list") == "none0":
+        t[0] = None
+    return alias
 
 
 def run_load_impl(case, full, sv):
@@ -626,11 +806,18 @@ def run_load_impl(case, full, sv):
         # read back every chip
         res["readback"] = {}
         res["trace_get"] = {}
-        for xy in full["readback"]:
+        res["alias"] = []
+        for k, xy in enumerate(full["readback"]):
             start = len(net.log)
             try:
                 t = mc.get_routing_table_entries(xy[0], xy[1])
                 res["readback"][xy] = {"ok": [canon_dec(d) for d in t]}
+                # the caller notes an arrival link on its copy of one entry (before any further read-back)
+                alias = caller_edits_readback(t, res["readback"][xy]["ok"],
+                                              {"row": case["seed"] % 997 + k, "add": case["seed"] % 24,
+                                               "discard_none": case["seed"] % 3 != 0, "list": None})
+                if alias:
+                    res["alias"].append((xy,) + alias)
             except struct.error:
                 res["readback"][xy] = {"err": ["struct.error"]}
             except (sc.TimeoutError, sc.FatalReturnCodeError) as e:
@@ -643,6 +830,7 @@ def run_load_impl(case, full, sv):
             res["trace_clear"] = traces(net, start)
             res["rows2"] = machine.rows_json(xy)
     res["pairs"] = machine.pairs[n_pairs:]
+    restore_default_sources()
     return res
 
 
@@ -876,12 +1064,17 @@ def judge_load(ctx, st, out, count=True):
             violation(key, what)
         elif d["base"] != 0 and xy in rb_list and "ok" in res["readback"][xy]:
             got = res["readback"][xy]["ok"][d["base"]:d["base"] + len(es)]
-            want = [[sorted(r), k, m, full["app"], 0] for r, k, m in es]
+            want = [[sorted(r), k, m, full["app"], 0, [-1]] for r, k, m in es]
             if got != want:
                 i = next((i for i, (a, b) in enumerate(zip(got, want)) if a != b), 0)
                 violation("readback-differs", "entry %d read back as %r, loaded %r" % (i, got[i:i + 1], want[i:i + 1]))
     if raised and not any_failed:
         violation("spurious-router-error", "SpiNNakerRouterError although every allocation succeeded")
+    for xy, i, j, was, now, n_bad in res.get("alias", []):
+        violation("readback-entries-share-state",
+                  "after the caller edited the sources of entry %d of the table read back from chip %r, entry %d of the "
+                  "same read-back changed from %r to %r (%d entries changed): the entries read back are no longer the "
+                  "router's" % (i, xy, j, was, now, n_bad))
     for xy in rb_list:
         rb = res["readback"][xy]
         if "ok" not in rb:
@@ -989,6 +1182,15 @@ def apply_mutation(lst, mu, mk):
         del lst[:]
     elif m == "extend":
         lst.extend([mk(e) for e in mu["entries"]])
+    elif m == "edit_sources":
+        # the caller notes something in the sources of its own entry (built with default arguments); sources are
+        # not loaded, so the plain-data mirror does not change
+        e = lst[mu["i"]]
+        if hasattr(e, "sources"):
+            from rig.routing_table import Routes
+            if mu["discard_none"]:
+                e.sources.discard(None)
+            e.sources.add(Routes(mu["add"]))
     else:
         raise ValueError(m)
 
@@ -1030,11 +1232,14 @@ def gen_session(rng):
                 for _ in range(rng.choice([1, 1, 2, 3])):
                     cur = content[lid]
                     kinds = ["append", "append", "insert", "extend"] + \
-                            (["replace", "replace", "replace", "delete", "delete", "reverse", "swap", "clear"] if cur else [])
+                            (["replace", "replace", "replace", "delete", "delete", "reverse", "swap", "clear",
+                              "edit_sources"] if cur else [])
                     m = rng.choice(kinds)
                     mu = {"m": m, "list": lid}
-                    if m in ("replace", "delete"):
+                    if m in ("replace", "delete", "edit_sources"):
                         mu["i"] = rng.randrange(len(cur))
+                    if m == "edit_sources":
+                        mu["add"], mu["discard_none"] = rng.randrange(24), rng.random() < 0.5
                     if m == "insert":
                         mu["i"] = rng.randrange(len(cur) + 1)
                     if m == "swap":
@@ -1063,6 +1268,14 @@ def gen_session(rng):
                 other = rng.choice(sorted(content))
                 tabs.append([list(xy), lid if rng.random() < 0.7 else other])
             step = {"mut": mut, "op": "tables", "tables": tabs, "app": app, "readback": rb}
+        # which of the two controllers of the session loads / reads back; what the caller then does, in place, with
+        # the read-back it was handed: the sources set of one returned entry, the returned list itself
+        step["ctl"] = rng.choice([0, 0, 0, 1])
+        step["rb_ctl"] = rng.choice([0, 0, 1])
+        step["rb_edit"] = [{"chip": list(xy), "row": rng.randrange(1000), "add": rng.randrange(24),
+                            "discard_none": rng.random() < 0.6,
+                            "list": rng.choice([None, None, "pop", "reverse", "clear", "none0"])}
+                           for xy in rb if rng.random() < 0.6]
         steps.append(step)
         last = lid
     return {"kind": "session", "buf": rng.choice([64, 128, 256, 256]), "window": rng.choice([1, 1, 2, 8]),
@@ -1086,10 +1299,12 @@ def run_session_impl(case, sv):
     out = []
     longest = 1
     with simnet.installed(net):
-        mc = simmachine.make_controller(net)
-        mc._window_size = case.get("window", 1)
-        _ = mc.scp_data_length
+        mcs = [simmachine.make_controller(net), simmachine.make_controller(net)]
+        for mc in mcs:
+            mc._window_size = case.get("window", 1)
+            _ = mc.scp_data_length
         for step in case["steps"]:
+            mc = mcs[step.get("ctl", 0)]
             for mu in step["mut"]:
                 if mu["m"] == "new":
                     objs[mu["list"]] = [mk(e) for e in mu["entries"]]
@@ -1137,12 +1352,19 @@ def run_session_impl(case, sv):
                 loaded[lid] = [list(e) for e in content[lid]]
             res["trace_load"] = traces(net, start)
             res["rows1"] = {xy: machine.rows_json(xy) for xy in machine.chips}
-            res["readback"], res["trace_get"] = {}, {}
+            res["readback"], res["trace_get"], res["alias"] = {}, {}, []
+            edits = {tuple(e["chip"]): e for e in step.get("rb_edit", [])}
             for xy in full["readback"]:
                 start = len(net.log)
                 try:
-                    t = mc.get_routing_table_entries(xy[0], xy[1])
-                    res["readback"][xy] = {"ok": [canon_dec(d) for d in t]}
+                    t = mcs[step.get("rb_ctl", 0)].get_routing_table_entries(xy[0], xy[1])
+                    before = [canon_dec(d) for d in t]
+                    res["readback"][xy] = {"ok": before}
+                    if xy in edits:
+                        # the caller edits ITS copy of one entry; all other entries it holds must stay what they were
+                        alias = caller_edits_readback(t, before, edits[xy])
+                        if alias:
+                            res["alias"].append((xy,) + alias)
                 except struct.error:
                     res["readback"][xy] = {"err": ["struct.error"]}
                 except (sc.TimeoutError, sc.FatalReturnCodeError) as e:
@@ -1150,6 +1372,7 @@ def run_session_impl(case, sv):
                 res["trace_get"][xy] = traces(net, start)
             res["pairs"] = machine.pairs[n_pairs:]
             out.append((full, res, info))
+    restore_default_sources()
     return out
 
 
@@ -1171,9 +1394,13 @@ def eval_sessions(ctx, cases, batch=12):
         out = ctx.lean(reqs)
         for case, steps in items:
             nontrivial = False
-            for st, a, b, info in steps:
+            for k, (st, a, b, info) in enumerate(steps):
                 judge_load(ctx, st, out[a:b], count=False)
                 ctx.tag("session_step")
+                if st["full"]["readback"] and any(e for e in case["steps"][k].get("rb_edit", [])):
+                    ctx.tag("session_readback_edited_by_caller")
+                if case["steps"][k].get("ctl") or case["steps"][k].get("rb_ctl"):
+                    ctx.tag("session_second_controller")
                 if info["reused_changed"]:
                     nontrivial = True
                     ctx.tag("session_list_reused_after_edit")
@@ -1199,7 +1426,15 @@ def gen_codec(rng, n):
         else:
             e = gen_entries(rng, 1)[0]
             i = rng.choice([0, 1, 255, 256, 1023, rng.randrange(1024)])
-            cases.append({"kind": "pack", "i": i, "entry": e})
+            c = {"kind": "pack", "i": i, "entry": e}
+            if rng.random() < 0.1:
+                # before the round trip the caller edits, in place, the sources of an entry it was handed by
+                # unpack_routing_table_entry ("returned") or of one it built itself with default arguments ("own")
+                bs = [rng.randrange(256) for _ in range(16)]
+                bs[7] = rng.randrange(255)
+                c["pre"] = {"how": rng.choice(["returned", "returned", "own"]), "bytes": bs, "add": rng.randrange(24),
+                            "discard_none": rng.random() < 0.6}
+            cases.append(c)
     return cases
 
 
@@ -1232,11 +1467,30 @@ def eval_codec(ctx, cases):
             struct.pack_into(consts.RTE_PACK_STRING, data, 0, c["i"], 0, route, c["entry"][1], c["entry"][2])
             if {"ok": list(data)} != r:
                 ctx.mismatch("c10.pack", "pack string %r gives %r, model %r" % (consts.RTE_PACK_STRING, list(data), r), c)
+            pre = c.get("pre")
+            if pre:
+                from rig.routing_table import RoutingTableEntry, Routes
+                if pre["how"] == "returned":
+                    got = mcm.unpack_routing_table_entry(bytes(pre["bytes"]))
+                    mine = got[0] if got is not None else None
+                else:
+                    mine = RoutingTableEntry({Routes(pre["add"])}, 1, 2)
+                if mine is not None:
+                    if pre["discard_none"]:
+                        mine.sources.discard(None)
+                    mine.sources.add(Routes(pre["add"]))
+                ctx.tag("pack_roundtrip_after_caller_edit_" + pre["how"])
             back = canon_dec(mcm.unpack_routing_table_entry(bytes(data)))
-            want = [sorted(c["entry"][0]), c["entry"][1], c["entry"][2], 0, 0]
+            # the entry given has unknown sources (the documented default {None}); so must the one read back
+            want = [sorted(c["entry"][0]), c["entry"][1], c["entry"][2], 0, 0, [-1]]
+            explicit = RoutingTableEntryExplicit(c["entry"])
             ctx.tag("pack_roundtrip")
             if back != want:
-                ctx.violation("record-roundtrip", "unpack(pack(entry)) = %r, entry = %r" % (back, want), c)
+                ctx.violation("record-roundtrip", "unpack(pack(entry)) = %r, entry = %r%s" % (
+                    back, want, " (after the caller edited the sources of another entry: %r)" % (pre,) if pre else ""), c)
+            elif mcm.unpack_routing_table_entry(bytes(data))[0] != explicit:
+                ctx.violation("record-roundtrip", "unpack(pack(entry)) != RoutingTableEntry(route, key, mask, {None})", c)
+            restore_default_sources()
             ctx.case(c, len(c["entry"][0]) > 1)
         ctx.traces += 1
 
